@@ -48,7 +48,9 @@ impl Report {
         if let Some(msg) = fail {
             let c = self.counts.entry(check.to_string()).or_insert(0);
             *c += 1;
-            if *c <= 3 { self.fails.push((check.to_string(), input.to_string(), msg)); }
+            // panics are reported even behind three ordinary failures of the same check (C15 counts them from every check)
+            let pc = if msg.starts_with("panic:") { let p = self.counts.entry(format!("{}#panics", check)).or_insert(0); *p += 1; *p } else { u64::MAX };
+            if *self.counts.get(check).unwrap() <= 3 || pc <= 3 { self.fails.push((check.to_string(), input.to_string(), msg)); }
         }
     }
     pub fn finish(self) -> ! {
